@@ -2,4 +2,5 @@ import Dalek.Proofs.Scalar52.Basic
 import Dalek.Proofs.Scalar52.Mul
 import Dalek.Proofs.Scalar52.Montgomery
 import Dalek.Proofs.Scalar52.Compose
+import Dalek.Proofs.Scalar52.Bytes
 import Dalek.Proofs.Scalar52.Glue
